@@ -100,7 +100,7 @@ def run_case(case) -> list[Failure]:
         raise core.InvalidCase
     if case["entry"] == "pool" and case["mode"] not in ("req-dict", "req-hd"):
         raise core.InvalidCase
-    policy_set = DEFAULT_SET if rm is None else {x.lower() for x in rm}
+    policy_set = DEFAULT_SET if rm is None else ({x.lower() for x in rm} | (DEFAULT_SET if case.get("rm_type") == "default-or" else set()))
     run = redirects.Run(graph, proxy=(case["entry"] == "proxy"))
     mgr_defaults = [["Authorization", "Basic bWdyOnNlY3JldA=="], ["X-Mgr", "m"]]
     fails: list[Failure] = []
@@ -109,7 +109,13 @@ def run_case(case) -> list[Failure]:
     with fakenet.Net(run.world):
         retry = None
         if rm is not None:
-            retry = urllib3.Retry(total=8, remove_headers_on_redirect=list(rm))
+            rt = case.get("rm_type", "list")
+            if rt not in ("list", "tuple", "set", "frozenset", "default-or"):
+                raise core.InvalidCase
+            rm_obj = {"list": list, "tuple": tuple, "set": set, "frozenset": frozenset}.get(rt, frozenset)(rm)
+            if rt == "default-or":
+                rm_obj = urllib3.Retry.DEFAULT_REMOVE_HEADERS_ON_REDIRECT | frozenset(rm)
+            retry = urllib3.Retry(total=8, remove_headers_on_redirect=rm_obj)
         elif len(graph["nodes"]) > 3:
             retry = urllib3.Retry(total=8)  # default set, ample budget
         kw_mgr, kw_req = {}, {}
@@ -235,7 +241,7 @@ def check_case(case):
 
 def nontrivial(case):
     rm = case.get("rm")
-    pset = DEFAULT_SET if rm is None else {x.lower() for x in rm}
+    pset = DEFAULT_SET if rm is None else ({x.lower() for x in rm} | (DEFAULT_SET if case.get("rm_type") == "default-or" else set()))
     return any(p[0].lower() in pset for p in case["headers"]) and _first_cross(case["graph"]) is not None
 
 
@@ -298,13 +304,14 @@ def enum_cases(tier):
                                     hdrs = [[casing(n, case_bits), "secret-%d" % i] for i, n in enumerate(names)] + BENIGN[:nbenign]
                                     yield {"kind": "cred", "entry": entry, "graph": chain(hops), "mode": mode, "headers": hdrs, "rm": None, "rm_place": None}
     # custom / empty remove_headers_on_redirect
-    for rm in ([], ["X-Secret"], ["x-secret", "Authorization"], ["COOKIE"]):
+    for rm in ([], ["X-Secret"], ["x-secret", "Authorization"], ["COOKIE"], ["Cookie", "Authorization", "X-SECRET"]):
         for place in ("request", "manager"):
             for entry in ("pm", "proxy"):
                 for mode in ("req-dict", "req-hd", "mgr"):
                     for x in (1, 2, 3):
                         hdrs = [["Authorization", "a"], ["X-Secret", "s"], ["Cookie", "c=1"], ["X-Keep", "1"]]
-                        yield {"kind": "cred", "entry": entry, "graph": chain([(0, 302, "abs", x), (x, 307, "path", x)]), "mode": mode, "headers": hdrs, "rm": rm, "rm_place": place}
+                        for rt in ("list", "frozenset", "set", "tuple", "default-or"):
+                            yield {"kind": "cred", "entry": entry, "graph": chain([(0, 302, "abs", x), (x, 307, "path", x)]), "mode": mode, "headers": hdrs, "rm": rm, "rm_place": place, "rm_type": rt}
     # bare pool
     for x in (1, 2, 3):
         for code in redirects.CODES:
@@ -334,7 +341,8 @@ def _hyp():
         order = draw(st.permutations(list(range(len(hdrs)))))
         hdrs = [hdrs[i] for i in order]
         rm = draw(st.sampled_from([None, None, None, [], ["X-Secret"], ["x-SECRET", "Cookie"], ["Authorization"]]))
-        return {"kind": "cred", "entry": entry, "graph": chain(hops), "mode": mode, "headers": hdrs, "rm": rm, "rm_place": draw(st.sampled_from(["request", "manager"])) if rm is not None else None}
+        return {"kind": "cred", "entry": entry, "graph": chain(hops), "mode": mode, "headers": hdrs, "rm": rm, "rm_place": draw(st.sampled_from(["request", "manager"])) if rm is not None else None,
+                "rm_type": draw(st.sampled_from(["list", "tuple", "set", "frozenset", "default-or"]))}
 
     return case()
 
